@@ -186,8 +186,12 @@ class Check:
         cone = coq_cone(f"{prop_module}.v")
         names = theorem_names(f"{prop_module}.v")
         obligations = count_qed(cone)
+        def fresh(f):
+            vo = (COQ / f).with_suffix(".vo")
+            return vo.exists() and vo.stat().st_mtime >= (COQ / f).stat().st_mtime
+        discharged = obligations if ok else count_qed([f for f in cone if fresh(f)])
         res = dict(ok=ok and not bad, log=log, forbidden=bad, cone=cone, theorems=names,
-                   obligations=obligations, discharged=obligations if ok else 0, assumptions=None)
+                   obligations=obligations, discharged=discharged, assumptions=None)
         if ok:
             ass, out = print_assumptions(self.work, prop_module, names)
             res["assumptions"] = ass
